@@ -53,8 +53,80 @@ def run_pipe(kind, tier, seed, C):
         err = "stream %s: driver saw %s of %d cases" % (kind, done.group(1), n)
     return {"cases": n, "nontrivial": len(seen), "samples": samples, "violations": viol, "error": err}
 
+# ---------------------------------------------------------------- cases.v streams: harness output evaluated inside Coq
+CASES_HEADER = """From Coq Require Import List NArith ZArith Bool String.
+From Coq.Strings Require Import Byte.
+From Gopki.Model Require Import Bytes Base64 Der Asn1 Text Algs Ext Rdn Time X509 Generate Merge Validate Current Effective CaseLib.
+Import ListNotations.
+Definition cases : list (bool * cert_case) := [
+"""
+CODES = {1: "the model yields a certificate, the implementation reported an error", 2: "the implementation wrote a certificate although the model (and the property) demands an error",
+         3: "certificate bytes differ from the model", 4: "strict X.509/DER parser rejects the implementation's certificate or re-encoding changes it",
+         5: "C02 shape rule violated (version v3 / inner = outer / RSA NULL, ECDSA absent parameters / serial 0..2^159)",
+         6: "SubjectPublicKeyInfo algorithm is not what the configured keyAlgorithm demands",
+         101: "version", 102: "serial", 103: "inner signature algorithm", 104: "issuer DN", 105: "notBefore", 106: "notAfter", 107: "subject DN", 108: "SubjectPublicKeyInfo",
+         109: "issuerUniqueID", 110: "subjectUniqueID", 111: "number of extensions", 112: "outer signature algorithm", 113: "signature value"}
+
+def code_text(c):
+    if c >= 120: return "extension #%d differs from the configured one" % (c - 120)
+    return CODES.get(c, str(c))
+
+def run_cert(kind, tier, seed, C, tz=None):
+    env = dict(C["ENV"])
+    if tz: env["TZ"] = tz
+    tag = kind + ("-" + tz.replace("/", "_") if tz else "")
+    p = subprocess.run([os.path.join(C["VERIF"], "harness", "harness"), kind, tier, str(seed)], capture_output=True, text=True, env=env, timeout=7200)
+    if p.returncode != 0:
+        return {"cases": 0, "nontrivial": 0, "samples": [], "violations": [], "error": "harness %s failed: %s" % (kind, p.stderr[-300:])}
+    descr = []; terms = []; viol = []
+    for l in p.stdout.split("\n"):
+        if l.startswith("CASE "): descr.append(l[5:])
+        elif l.startswith("COQ "): terms.append(l[4:])
+        elif l.startswith("SELFFAIL "): viol.append({"case": l[9:200], "detail": l[9:], "concrete": True})
+    if len(descr) != len(terms):
+        return {"cases": 0, "nontrivial": 0, "samples": [], "violations": viol, "error": "harness %s: %d CASE lines but %d COQ lines" % (kind, len(descr), len(terms))}
+    # shard and evaluate
+    nsh = max(1, min(12, len(terms) // 60))
+    procs = []
+    for k in range(nsh):
+        idx = list(range(k, len(terms), nsh))
+        name = "Cases_%s_%d" % (re.sub(r"\W", "_", tag), k)
+        v = CASES_HEADER + ";\n".join(terms[i] for i in idx) + "].\nDefinition M := Eval vm_compute in run_cases cases.\nPrint M.\n"
+        open(os.path.join(C["bdir"], name + ".v"), "w").write(v)
+        procs.append((idx, name, subprocess.Popen(["coqc"] + C["COQ_Q"] + [name + ".v"], cwd=C["bdir"], stdout=subprocess.PIPE, stderr=subprocess.PIPE, text=True, env=C["ENV"])))
+    err = None
+    for idx, name, pr in procs:
+        try:
+            o, e = pr.communicate(timeout=3000)
+        except subprocess.TimeoutExpired:
+            pr.kill(); err = "coqc %s timed out" % name; continue
+        if pr.returncode != 0:
+            err = "coqc %s failed: %s" % (name, e.strip()[-400:]); continue
+        m = re.search(r"M\s*=\s*(.*?)\s*:\s*list", o, re.S)
+        if not m: err = "coqc %s: no result" % name; continue
+        for j, codes in re.findall(r"\((\d+)%?n?a?t?, \[([^\]]*)\]\)", m.group(1)):
+            cs = [int(x) for x in re.findall(r"\d+", codes)]
+            i = idx[int(j)]
+            # concrete when the implementation's own output fails a specification check (strict parse, shape, key algorithm,
+            # error expected) or a decoded field differs from what the configuration demands
+            viol.append({"case": descr[i][:3000], "detail": "; ".join(code_text(c) for c in cs), "codes": cs, "concrete": True, "coq": terms[i][:20000]})
+        for f in (name + ".vo", name + ".glob", name + ".vok", name + ".vos", "." + name + ".aux"):
+            try: os.remove(os.path.join(C["bdir"], f))
+            except OSError: pass
+    hist = {}
+    for d in descr:
+        k = d.split(" ")[3] if len(d.split(" ")) > 3 else "?"
+        hist[k] = hist.get(k, 0) + 1
+    distinct = len(set(hashlib.sha1(t.encode()).hexdigest() for t, d in zip(terms, descr) if " cert " in d))
+    return {"cases": len(terms), "nontrivial": distinct, "samples": [d[:600] for d in descr[3:len(descr):max(1, len(descr) // 3)]][:3], "violations": viol, "error": err, "outcomes": hist,
+            **({"tz": tz} if tz else {})}
+
 def run_stream(st, prop, tier, seed, C):
     if st in PIPE: return run_pipe(PIPE[st], tier, seed, C)
+    if st.startswith("cert-"):
+        tz = None
+        if "@" in st: st, tz = st.split("@")
+        return run_cert(st, tier, seed, C, tz)
     raise Exception("unknown stream " + st)
 
 def replay(path, sh, VERIF, REPO):
